@@ -84,3 +84,105 @@ func gsxC12BadCond() {
 	value := gsxrt.And(cmpv(op1, x1, a), cmpv(op2, x2, b))
 	gsxrt.Assert(!value, "claim: a condition reported as always false is true in some execution")
 }
+
+// gsxPureExpr: evaluating e twice gives the same value and has no effect -
+// identifiers, literals, and operators over such; a call is only allowed when
+// it is a conversion; a channel receive never is.
+func gsxPureExpr(info *types.Info, e ast.Expr) bool {
+	switch e := e.(type) {
+	case nil:
+		return true
+	case *ast.Ident, *ast.BasicLit:
+		return true
+	case *ast.ParenExpr:
+		return gsxPureExpr(info, e.X)
+	case *ast.StarExpr:
+		return gsxPureExpr(info, e.X)
+	case *ast.SelectorExpr:
+		return gsxPureExpr(info, e.X)
+	case *ast.UnaryExpr:
+		return e.Op != token.ARROW && gsxPureExpr(info, e.X)
+	case *ast.BinaryExpr:
+		return gsxPureExpr(info, e.X) && gsxPureExpr(info, e.Y)
+	case *ast.IndexExpr:
+		return gsxPureExpr(info, e.X) && gsxPureExpr(info, e.Index)
+	case *ast.SliceExpr:
+		return gsxPureExpr(info, e.X) && gsxPureExpr(info, e.Low) && gsxPureExpr(info, e.High) && gsxPureExpr(info, e.Max)
+	case *ast.TypeAssertExpr:
+		return gsxPureExpr(info, e.X)
+	case *ast.KeyValueExpr:
+		return gsxPureExpr(info, e.Key) && gsxPureExpr(info, e.Value)
+	case *ast.CompositeLit:
+		for _, x := range e.Elts {
+			if !gsxPureExpr(info, x) {
+				return false
+			}
+		}
+		return true
+	case *ast.CallExpr:
+		if tv, ok := info.Types[e.Fun]; !ok || !tv.IsType() {
+			return false
+		}
+		for _, x := range e.Args {
+			if !gsxPureExpr(info, x) {
+				return false
+			}
+		}
+		return true
+	}
+	return false
+}
+
+// gsxC12DupSubExpr: when dupSubExpr reports "identical LHS and RHS", the two
+// operands really denote the same value. Well-typed templates `e op e` with a
+// symbolic operator and an operand drawn from pure forms (x, x+1, int(x), p.f,
+// a[i]) and impure ones (a call f(), a receive <-ch, a sum containing a call).
+func gsxC12DupSubExpr() {
+	c, ctx := gsxNewChecker("dupSubExpr")
+	info := ctx.TypesInfo
+	info.Types = map[ast.Expr]types.TypeAndValue{}
+	info.Uses = map[*ast.Ident]types.Object{}
+	info.Defs = map[*ast.Ident]types.Object{}
+	tint := types.Typ[types.Int]
+	typed := func(e ast.Expr, t types.Type) ast.Expr { info.Types[e] = types.TypeAndValue{Type: t}; return e }
+	kind := gsxrt.Choose("operand", 8)
+	mk := func() ast.Expr {
+		x := func() ast.Expr { return typed(&ast.Ident{Name: "x"}, tint) }
+		switch kind {
+		case 0:
+			return x()
+		case 1:
+			return typed(&ast.BinaryExpr{X: x(), Op: token.ADD, Y: typed(&ast.BasicLit{Kind: token.INT, Value: "1"}, tint)}, tint)
+		case 2:
+			conv := &ast.Ident{Name: "int"}
+			info.Uses[conv] = types.Universe.Lookup("int") // a type name: the call is a conversion
+			return typed(&ast.CallExpr{Fun: conv, Args: []ast.Expr{x()}}, tint)
+		case 3:
+			return typed(&ast.SelectorExpr{X: typed(&ast.Ident{Name: "p"}, tint), Sel: &ast.Ident{Name: "f"}}, tint)
+		case 4:
+			return typed(&ast.IndexExpr{X: typed(&ast.Ident{Name: "a"}, types.NewSlice(tint)), Index: x()}, tint)
+		case 5:
+			return typed(&ast.CallExpr{Fun: typed(&ast.Ident{Name: "f"}, types.NewSignatureType(nil, nil, nil, nil, types.NewTuple(types.NewVar(0, nil, "", tint)), false))}, tint)
+		case 6:
+			return typed(&ast.UnaryExpr{Op: token.ARROW, X: typed(&ast.Ident{Name: "ch"}, types.NewChan(types.SendRecv, tint))}, tint)
+		default:
+			call := typed(&ast.CallExpr{Fun: typed(&ast.Ident{Name: "f"}, types.NewSignatureType(nil, nil, nil, nil, types.NewTuple(types.NewVar(0, nil, "", tint)), false))}, tint)
+			return typed(&ast.BinaryExpr{X: x(), Op: token.ADD, Y: call}, tint)
+		}
+	}
+	op := token.Token(gsxrt.IntRange("op", int(token.ADD), int(token.GEQ)))
+	// operators defined on two ints
+	gsxrt.Assume(gsxrt.Or(op == token.OR, op == token.AND, op == token.XOR, op == token.AND_NOT, op == token.REM, op == token.QUO, op == token.SUB, op == token.ADD, op == token.MUL,
+		op == token.LSS, op == token.GTR, op == token.EQL, op == token.NEQ, op == token.LEQ, op == token.GEQ))
+	root := &ast.BinaryExpr{X: mk(), Op: op, Y: mk()}
+	info.Types[root] = types.TypeAndValue{Type: tint}
+	v := gsxrt.Field(gsxrt.Field(c, "fileWalker"), "visitor").(interface{ VisitExpr(ast.Expr) })
+	v.VisitExpr(root)
+	gsxrt.Reached("visited")
+	if len(gsxWarnings(c)) == 0 {
+		return
+	}
+	gsxrt.Reached("reported")
+	gsxrt.Assert(kind <= 4, "claim: operands reported as identical contain a call or a channel receive (two evaluations need not give the same value)")
+}
+
